@@ -42,3 +42,6 @@ mod matcher;
 mod minimizer;
 mod partitions;
 mod store;
+
+#[cfg(feature = "verif-hooks")]
+pub mod verif_hooks;
